@@ -1,7 +1,7 @@
 SPECIFICATION Spec
-CONSTANT MaxLen = 3
+CONSTANT MaxLen = 2
 CONSTANT Sel = "cal"
-CONSTANT AnyTopo = FALSE
+CONSTANT AnyTopo = TRUE
 INVARIANT EachOnce
 INVARIANT Documented
 INVARIANT Asap
